@@ -250,7 +250,115 @@ fn wrapper1(which: &str) -> Option<String> {
     None
 }
 
+fn run_fft(f: &Arc<dyn Fft<f64>>) -> Vec<Complex<f64>> {
+    let n = f.len();
+    let mut buf: Vec<Complex<f64>> = (0..n).map(|i| Complex::new(((i * 7 + 3) % 11) as f64 - 5.0, ((i * 5 + 1) % 13) as f64 * 0.25)).collect();
+    let mut scratch = vec![Complex::new(0.0, 0.0); f.get_inplace_scratch_len()];
+    f.process_with_scratch(&mut buf, &mut scratch);
+    buf
+}
+// C10 bounded stand-in: every request sequence up to the given depth over a pool of related (length, direction) pairs on ONE
+// FftPlannerScalar: no panic, right length and direction, and bit-identical output to a fresh planner's transform
+fn plan_history(pool: &[usize], depth: usize) -> Option<String> {
+    let dirs = [FftDirection::Forward, FftDirection::Inverse];
+    let reqs: Vec<(usize, FftDirection)> = pool.iter().flat_map(|&n| dirs.iter().map(move |&d| (n, d))).collect();
+    let fresh: Vec<Vec<Complex<f64>>> = reqs.iter().map(|&(n, d)| run_fft(&crate::FftPlannerScalar::<f64>::new().plan_fft(n, d))).collect();
+    let mut idx = vec![0usize; depth];
+    loop {
+        let seq: Vec<(usize, FftDirection)> = idx.iter().map(|&i| reqs[i]).collect();
+        let r = quiet(|| {
+            let mut p = crate::FftPlannerScalar::<f64>::new();
+            for (step, &(n, d)) in seq.iter().enumerate() {
+                let f = p.plan_fft(n, d);
+                if f.len() != n { return Some(format!("request {} of {:?} on one FftPlannerScalar returned len() = {}", step + 1, seq, f.len())); }
+                if f.fft_direction() != d { return Some(format!("request {} of {:?} on one FftPlannerScalar returned fft_direction() = {:?}", step + 1, seq, f.fft_direction())); }
+                if step + 1 == seq.len() {
+                    let out = run_fft(&f);
+                    let want = &fresh[idx[step]];
+                    if out.len() != want.len() || out.iter().zip(want.iter()).any(|(a, b)| a.re.to_bits() != b.re.to_bits() || a.im.to_bits() != b.im.to_bits()) {
+                        return Some(format!("last transform of {:?} on one FftPlannerScalar differs bitwise from the same request on a fresh planner", seq));
+                    }
+                }
+            }
+            None
+        });
+        match r {
+            Err(e) => return Some(format!("request sequence {:?} on one FftPlannerScalar panicked: {}", seq, panic_msg(e))),
+            Ok(Some(x)) => return Some(x),
+            Ok(None) => {}
+        }
+        // next index vector
+        let mut k = depth;
+        loop {
+            if k == 0 { return None; }
+            k -= 1;
+            idx[k] += 1;
+            if idx[k] < reqs.len() { break; }
+            idx[k] = 0;
+        }
+    }
+}
+
+// C03/C09 bounded stand-in on real transforms: canary-guarded caller buffers, every call shape around the valid one
+fn shapes_one(desc: &str, f: &dyn Fft<f64>) -> Option<String> {
+    const G: usize = 8; // canary elements on each side
+    let canary = Complex::new(-12345.5, 54321.25);
+    let n = f.len();
+    let guarded = |len: usize| -> Vec<Complex<f64>> { let mut v = vec![canary; len + 2 * G]; for (i, x) in v[G..G + len].iter_mut().enumerate() { *x = Complex::new(i as f64, 1.0); } v };
+    let intact = |v: &Vec<Complex<f64>>, len: usize| -> bool { v[..G].iter().chain(v[G + len..].iter()).all(|x| x.re.to_bits() == canary.re.to_bits() && x.im.to_bits() == canary.im.to_bits()) };
+    let mut lens = vec![0usize, 1, n.saturating_sub(1), n, n + 1, 2 * n, (2 * n).saturating_sub(1), 2 * n + 1, 3 * n];
+    lens.sort(); lens.dedup();
+    for entry in 0..3 {
+        let adv = match entry { 0 => f.get_inplace_scratch_len(), 1 => f.get_outofplace_scratch_len(), _ => f.get_immutable_scratch_len() };
+        let mut slens = vec![0usize, adv.saturating_sub(1), adv, adv + 1];
+        slens.sort(); slens.dedup();
+        for &dl in &lens { for &sl in &slens {
+            let mut olens = vec![dl];
+            if entry > 0 { olens = vec![dl, dl + 1, dl.saturating_sub(1), dl + n, dl.saturating_sub(n)]; olens.sort(); olens.dedup(); }
+            for &ol in &olens {
+                let well = n == 0 || (dl % n == 0 && (entry == 0 || ol == dl) && sl >= adv);
+                let name = ["process_with_scratch", "process_outofplace_with_scratch", "process_immutable_with_scratch"][entry];
+                let case = format!("{desc}.{name}(data.len()={dl}, output.len()={ol}, scratch.len()={sl}) [len {n}, advertised scratch {adv}]");
+                eprintln!("CASE {case}");
+                let (mut a, mut b, mut c) = (guarded(dl), guarded(ol), guarded(sl));
+                let a0 = a.clone();
+                let r = quiet(|| {
+                    let (x, y, z) = (&mut a[G..G + dl], &mut b[G..G + ol], &mut c[G..G + sl]);
+                    match entry { 0 => f.process_with_scratch(x, z), 1 => f.process_outofplace_with_scratch(x, y, z), _ => f.process_immutable_with_scratch(x, y, z) }
+                });
+                if !intact(&a, dl) || !intact(&b, ol) || !intact(&c, sl) { return Some(format!("{case}: memory outside the caller's slices was written")); }
+                if entry == 2 && a.iter().zip(a0.iter()).any(|(p, q)| p.re.to_bits() != q.re.to_bits() || p.im.to_bits() != q.im.to_bits()) { return Some(format!("{case}: the immutable input was modified")); }
+                match r {
+                    Ok(()) => if !well { return Some(format!("{case}: ill-shaped call returned normally")); },
+                    Err(e) => if well { return Some(format!("{case}: well-shaped call panicked: {}", panic_msg(e))); },
+                }
+            }
+        }}
+    }
+    None
+}
+fn shapes(limit: usize) -> Option<String> {
+    use crate::algorithm::butterflies::*;
+    let d = FftDirection::Forward;
+    macro_rules! b { ($($t:ident),*) => { $( if let Some(x) = shapes_one(concat!(stringify!($t), "::new(Forward)"), &$t::<f64>::new(d)) { return Some(x); } )* } }
+    b!(Butterfly1, Butterfly2, Butterfly3, Butterfly4, Butterfly5, Butterfly6, Butterfly7, Butterfly8, Butterfly9, Butterfly11, Butterfly12, Butterfly13,
+       Butterfly16, Butterfly17, Butterfly19, Butterfly23, Butterfly24, Butterfly27, Butterfly29, Butterfly31, Butterfly32);
+    for n in 0..4 { if let Some(x) = shapes_one(&format!("Dft::new({n}, Forward)"), &Dft::<f64>::new(n, d)) { return Some(x); } }
+    for n in 0..limit {
+        let f = crate::FftPlannerScalar::<f64>::new().plan_fft(n, if n % 2 == 0 { FftDirection::Forward } else { FftDirection::Inverse });
+        if let Some(x) = shapes_one(&format!("FftPlannerScalar.plan_fft({n})"), &*f) { return Some(x); }
+    }
+    None
+}
+
 pub fn search(which: &str) -> Option<String> {
+    if let Some(rest) = which.strip_prefix("shapes:") { return shapes(rest.parse().unwrap_or(64)); }
+    if which == "plan_history:quick" {
+        return plan_history(&[5, 16, 25, 36, 37, 59, 64, 74, 100, 101, 128, 192, 193, 407], 2).or_else(|| plan_history(&[5, 25, 36, 37, 59, 64], 3));
+    }
+    if which == "plan_history:thorough" {
+        return plan_history(&[2, 5, 16, 25, 36, 37, 59, 64, 74, 100, 101, 118, 125, 128, 192, 193, 256, 407, 625, 1234], 2).or_else(|| plan_history(&[5, 16, 25, 36, 37, 59, 64, 74, 128, 192, 193], 3));
+    }
     if let Some(rest) = which.strip_prefix("partition:") {
         let limit: usize = rest.parse().unwrap_or(1 << 14);
         for n in 1..limit { if let Some(x) = check_partition(n) { return Some(x); } }
@@ -275,6 +383,6 @@ pub fn search(which: &str) -> Option<String> {
     }
 }
 pub fn known(which: &str) -> bool {
-    which.starts_with("partition:") || which.starts_with("plan_scalar:") || which == "sqrt_limit"
+    which.starts_with("partition:") || which.starts_with("plan_scalar:") || which.starts_with("plan_history:") || which.starts_with("shapes:") || which == "sqrt_limit"
         || matches!(which, "MixedRadix" | "MixedRadixSmall" | "GoodThomasAlgorithm" | "GoodThomasAlgorithmSmall" | "Radix4" | "Radix3" | "RadersAlgorithm" | "BluesteinsAlgorithm")
 }
